@@ -13,54 +13,57 @@ from . import skeleton as sk
 from .skeleton import EC
 
 EXPLANATION = (
-    "Every clause is decided by evaluating the library source abstractly (sa.symex) on small abstract domains and "
-    "comparing the computed value with the behaviour written down in the rule; no clause looks at source text, local "
-    "names or statement layout (helpers a function calls are evaluated through). Indices are abstract records (space, "
-    "spin, name, dummy id), sympy's singletons 0/1/-1 are integers, Add/Mul/Pow are sum/product/power of terms. "
-    "R06a: the bra-ket comparison each tensor class resolves to (_need_bra_ket_swap through the class hierarchy) "
-    "evaluated on 1- and 2-index groups over 3 spaces x 3 spins x numbered names: never a swap in both directions, exactly "
-    "one direction for different (space, spin, number, letter) keys, none for equal keys, unequal group sizes refused. "
-    "R06b (end to end): the constructor each class (AntiSymmetricTensor, Amplitude, SymmetricTensor) resolves to is evaluated "
-    "together with the library's sort key and bra-ket comparison for every index tuple of rank (1,1) and (2,2) (thorough: "
-    "also (2,1) and (3,3)) over an index pool and bra-ket symmetry 0/+1/-1: all orderings related by the declared "
-    "permutational and bra-ket symmetry give the same canonical object with the prescribed relative sign, a repeated "
-    "index in an antisymmetric group gives zero and nothing else does, the canonical upper/lower groups are the given "
-    "groups (exchanged only under a bra-ket symmetry), so unrelated tuples are never identified. R06c: the constructors "
-    "in isolation with the sorting primitive and the comparison modelled (sort parities, swap needed, symmetry 0/+1/-1, "
-    "non-Index entries, Pauli violation, invalid symmetry): sign, exchange, zero; the groups are sorted with the canonical "
-    "key and the comparison is made on the sorted groups. R06d: KroneckerDelta.eval over all (space, spin)^2 inputs "
-    "(zero exactly for two different non-general spaces or two different spins, else canonical argument order, delta(i,i)=1) "
-    "and the _eval_power table. R06e: homomorphism of make_real, _apply_tensor_braket_sym, rename_tensor on all four "
-    "container levels by evaluation: Expr content = sum over all terms, Term = product over all objects, Polynom = "
-    "(sum over all terms) ** exponent with the arguments forwarded and raw values combined, wrappers carry the "
-    "assumptions; Obj level as value tables (t-amplitude names lose the complex-conjugate mark and nothing else changes, "
-    "rename rebuilds the same class with the same index groups and symmetry, rebuilt values keep the exponent). Calls of "
-    "the next lower level are recorded with all arguments bound to parameter names and with the assumptions of the "
-    "owning expression at the time of the call on which the raw value depends (verified by differential evaluation). "
-    "R06f: the Expr assumption state machine (__init__, make_real, set_sym_tensors, set_antisym_tensors) evaluated on "
-    "concrete assumption sets against a reference transition function (real adds fock and eri, the symmetry is applied "
-    "with the complete new declaration after it changed, an already real expression is left untouched, non-string names "
-    "refused), the decision table of Obj._apply_tensor_braket_sym (class x declared names x present symmetry) and of "
-    "AntiSymmetricTensor.add_bra_ket_sym (present x requested symmetry). Contents are compared modulo one law: applying "
-    "the declared symmetry for names S after applying it for a subset of S equals applying it for S.")
+    "Every clause is decided by evaluating the library source abstractly (sa.symex) and comparing the computed value with "
+    "the behaviour written down in the rule. The library is entered through its public surface only (the constructors of "
+    "the tensor classes and of Expr, KroneckerDelta.eval and sympy's _eval_power protocol, the public methods make_real / "
+    "set_sym_tensors / set_antisym_tensors / rename_tensor / add_bra_ket_sym, the public properties terms / objects / sympy / "
+    "real / sym_tensors / antisym_tensors / provided_target_idx); whatever private helper, nested function or classmethod "
+    "does the work is evaluated through, so no clause depends on where or under which name it lives. Indices are "
+    "abstract records (space, spin, name, dummy id), sympy's singletons 0/1/-1 are integers. "
+    "R06a: the bra-ket ordering as the constructors apply it: for 1- and 2-index groups over spaces x spins x numbered "
+    "names (incl. two distinct indices with equal keys) K(u,l,+1) and K(l,u,+1) are never both exchanged, exactly one is "
+    "for different (space, spin, number, letter) keys, none for equal keys, a group is not exchanged with itself, unequal "
+    "group sizes are refused. R06b (relational): for every index tuple of rank (1,1) and (2,2) (thorough: also (2,1), (3,3)) "
+    "over an index pool and bra-ket symmetry 0/+1/-1 all orderings related by the declared permutational and bra-ket "
+    "symmetry give the same canonical object with the prescribed relative sign, a repeated index in an antisymmetric group "
+    "gives zero and nothing else does, the canonical groups are the given groups (exchanged only under a bra-ket symmetry), "
+    "so unrelated tuples are never identified. R06c (formula): scenario inputs (both sort parities, both orientations, "
+    "symmetry 0/+1/-1, a non-Index entry, invalid symmetry, repeated index): groups sorted ascending by the library's "
+    "sort_idx_canonical, exchanged exactly when a symmetry is declared, all entries are indices and the sorted groups are "
+    "in the orientation the constructor exchanges for symmetry +1, sign = parity of the two sorts (antisymmetric groups) "
+    "times bra_ket_sym if exchanged. R06d: KroneckerDelta.eval over all (space, spin)^2 inputs (zero exactly for two "
+    "different non-general spaces or two different spins, else canonical argument order, delta(i,i)=1) and the power "
+    "table. R06e/R06f: the container classes are evaluated through all levels on concrete model expressions (sums of "
+    "products with prefactors, exponents, polynoms with and without exponent, every tensor class, deltas, bra-ket "
+    "partners that sympy collects once identified): tensors are built by the library's own constructors, Expr / Term / Obj / "
+    "Polynom objects by the library's __new__ / __init__, and the resulting content is compared leaf by leaf and in "
+    "structure with a reference written in the rule. R06f: Expr(...), make_real, set_sym_tensors, set_antisym_tensors "
+    "against a reference state machine (real adds fock and eri, exactly the declared names that lack the symmetry are "
+    "rebuilt with it - class, name, index groups kept -, the opposite symmetry is refused, non-string names are refused, "
+    "an expression that is real already is not processed again), the decision table class x declared name x present "
+    "symmetry x exponent on single-object contents, add_bra_ket_sym (present x requested symmetry). R06e: make_real on a "
+    "fresh expression and rename_tensor at the Expr level; terms / objects enumerate all summands / factors; make_real "
+    "and rename_tensor of every Term, Obj and Polynom give the reference image of what they hold (t-amplitudes lose the "
+    "complex-conjugate mark, renamed tensors keep class, indices, symmetry; sums stay sums, products products, exponents "
+    "are kept), raw or wrapped in an Expr that carries the assumptions (real=True after make_real).")
 ASSUMPTIONS = [
-    "sympy's _sort_anticommuting_fermions sorts by the given key, returns the number of transpositions and raises "
-    "ViolationOfPauliPrinciple on two entries with equal keys; sorted() is stable python sorting",
+    "sympy's _sort_anticommuting_fermions (imported from sympy, no source in the library) sorts by the given key, returns "
+    "the number of transpositions and raises ViolationOfPauliPrinciple on two entries with equal keys; sympy allocates "
+    "Basic objects by <Base>.__new__(cls, *args) with .args = args; Add collects equal summands, Mul/Pow fold numbers and "
+    "unit exponents; nothing else of sympy's automatic simplification is modelled",
     "orientation (< vs >) of the bra/ket ordering is deliberately not constrained",
-    "value preservation under the declared assumptions is not decided (only that exactly the declared names are "
-    "re-canonicalised with the complete declaration at every level)",
-    "index tuples are explored up to rank (2,2) over a pool of 5-6 abstract indices (thorough: pool of 8, (2,1) and (3,3) samples)",
+    "value preservation under the declared assumptions is not decided (only that exactly the declared tensors are "
+    "re-canonicalised with the complete declaration, everything else is left as it is)",
+    "index tuples are explored up to rank (2,2) over a pool of 4-6 abstract indices (thorough: pool of 8, (2,1) and (3,3) samples); "
+    "container clauses are decided on the model expressions listed in Scene.small / Scene.rich",
     "the diagonal of a bra-ket antisymmetric tensor (upper group == lower group, bra_ket_sym=-1) is mathematically zero; "
     "the constructor keeps it as an object - not counted as a forced zero here (reported separately)",
     "bra-ket partners are only required to be identified when the two groups differ in (space, spin, name) of some "
     "index: for two distinct Index objects with the same name, space and spin (possible because Index is a Dummy) "
     "the comparison has no preference and d^{i}_{i'} / d^{i'}_{i} stay distinct (reported separately)",
-    "Expr class invariant used by the reference state machine: the content of an Expr already carries the symmetry of "
-    "its current declaration (established by __init__, kept by the in-place operators), `terms` enumerates the summands "
-    "of the current content, Term/Obj read the assumptions of the owning Expr when they are called; because of the "
-    "invariant re-applying an unchanged declaration is not distinguished from not applying it",
-    "whether a content is a plain number is decided once per path for the original content (images of a number under "
-    "the container methods are that number)",
+    "re-applying an unchanged declaration is not distinguished from not applying it (same value); that a real expression "
+    "is not processed again by make_real is decided by counting the container objects the call builds",
+    "NormalOrdered containers are outside the model expressions",
 ]
 
 SO = "sympy_objects"
@@ -226,7 +229,7 @@ def r06a(ctx):
     groups exchanged (a strict total order on the (space, spin, name) keys => one canonical form)."""
     rule = "R06a"
     names = ["i", "i1", "j2"] if ctx.tier != "thorough" else ["i", "j", "i1", "j2"]
-    one = [(_ix(sp, s, n),) for sp in SPACES for s in SPINS for n in names]
+    one = [(_ix(sp, s, n),) for sp in SPACES for s in (SPINS if ctx.tier == "thorough" else SPINS[:2]) for n in names]
     # two distinct index objects with the same (space, spin, name): equal keys
     one += [(_ix("occ", "", "i", tag="'"),), (_ix("virt", "a", "i1", tag="'"),)]
     two_src = [_ix(sp, s, n) for sp in ("occ", "virt") for s in ("", "a") for n in ("i", "j1")]
@@ -420,7 +423,7 @@ def r06b(ctx):
         ranks = [(1, 1)]
         samples = {}
         if impl not in seen or thorough:
-            samples[(2, 2)] = pool if thorough else pool[:5]
+            samples[(2, 2)] = pool if thorough else pool[:4]
         else:
             samples[(2, 2)] = pool[:3]
         if thorough:
@@ -841,10 +844,11 @@ def expr_machine(ctx):
     E = f"{EC}:Expr"
     node = {m: ctx.model.fn(f"{E}.{m}") for m in ("__init__", "make_real", "set_sym_tensors", "set_antisym_tensors",
                                                     "rename_tensor")}
-    sets = [None, [], ["x"], [f_], [v_, "x"], ["x", f_, v_]]
+    thorough = ctx.tier == "thorough"
+    sets = [None, [], ["x"], [f_], [v_, "x"], ["x", f_, v_]] if thorough else [None, ["x"], [f_], ["x", f_, v_]]
     # ---- Expr(...)
     for real, st_, anti, tgt, wrapped in itertools.product((False, True), sets, (None, ["y"]), (False, True), (False, True)):
-        if (wrapped or tgt) and (anti is not None or st_ not in (None, ["x"])):
+        if (wrapped or tgt) and (anti is not None or st_ != ["x"] or (wrapped and tgt and not thorough)):
             continue
 
         def call(content):
@@ -867,6 +871,8 @@ def expr_machine(ctx):
     # ---- make_real / setters / rename on expressions created through the constructor
     starts = [(False, s, a) for s in ([], ["x"], [f_], [f_, v_], ["x", f_, v_]) for a in ([], ["y"])] + \
              [(True, s, a) for s in ([], ["x"]) for a in ([], ["y"])]
+    if not thorough:
+        starts = [x for k, x in enumerate(starts) if k not in (3, 4, 9, 12)]
 
     def start(content, real, s, a):
         e = cx.construct("Expr", content, real=real, sym_tensors=list(s), antisym_tensors=list(a))
@@ -901,7 +907,7 @@ def expr_machine(ctx):
                 continue        # declaring a name symmetric and antisymmetric is refused by the tensors
             if meth == "set_sym_tensors" and "y" in names:
                 continue
-            for arg in (list(names), tuple(names)):
+            for arg in ((list(names), tuple(names)) if thorough or (s and names) else (list(names),)):
                 label = f"{meth}({arg!r}) on Expr(real={real}, sym_tensors={s}, antisym_tensors={a})"
 
                 def call(content):
@@ -979,9 +985,9 @@ def lower_levels(ctx):
                 tv = cx.get(t, "sympy")
                 out.append((f"objects of term {k} enumerate all factors", "R06e", [] if cx.value(prod) == cx.value(tv) else
                             [("leaves", f"product of the objects is {cx.value(prod)[:500]}, the term is {cx.value(tv)[:500]}")]))
-                conts.append((f"term {k}", lambda k=k: list(cx.get(e, "terms"))[k]))
-                for q in range(len(objs)):
-                    conts.append((f"object {q} of term {k}", lambda k=k, q=q: list(cx.get(list(cx.get(e, "terms"))[k], "objects"))[q]))
+                conts.append((f"term {k}", lambda t=t: t))
+                for q, ob in enumerate(objs):
+                    conts.append((f"object {q} of term {k}", lambda ob=ob: ob))
             for cname, getc in conts:
                 for meth, args, ref, real_after in methods:
                     for rs in (True, False):
@@ -1089,7 +1095,7 @@ def add_bra_ket_sym(ctx):
 
 
 def _floors(ctx):
-    for rule, minimum in (("R06a", 4), ("R06c", 40), ("R06d", 100), ("R06e", 100), ("R06f", 150)):
+    for rule, minimum in (("R06a", 4), ("R06c", 40), ("R06d", 100), ("R06e", 100), ("R06f", 100)):
         if ctx.want(rule) and (ctx.only_rule is None or ctx.only_rule == rule):
             ctx.floor(rule, "evaluated scenarios", ctx.per_rule.get(rule, {}).get("obligations", 0), minimum)
 
